@@ -85,6 +85,7 @@ pub struct Ctx {
     pub machinery: Vec<String>,
     slot: Option<std::fs::File>,
     sub_idx: u64,
+    pos: u64,
     beat: u64,
 }
 
@@ -110,6 +111,7 @@ impl Ctx {
             machinery: Vec::new(),
             slot: None,
             sub_idx: 0,
+            pos: 0,
             beat: 0,
         }
     }
@@ -212,7 +214,7 @@ impl Ctx {
         if let Some(f) = &self.slot {
             let mut b = [0u8; 24];
             b[..8].copy_from_slice(&self.sub_idx.to_le_bytes());
-            b[8..16].copy_from_slice(&self.index.to_le_bytes());
+            b[8..16].copy_from_slice(&self.pos.to_le_bytes());
             b[16..].copy_from_slice(&self.beat.to_le_bytes());
             let _ = f.write_at(&b, 0);
         }
@@ -263,6 +265,13 @@ pub struct CheckDef {
     pub required_outcomes: Vec<String>,
 }
 
+/// A scratch context (counters discarded), for measuring a case outside a run.
+pub fn placeholder_ctx() -> Ctx {
+    let mut c = Ctx::new("", Tier::Quick, "");
+    c.sample_cap = 0;
+    c
+}
+
 // ---------------------------------------------------------------------------
 // Panic capture
 
@@ -277,7 +286,11 @@ impl Panic {
     /// `file:<trimmed source text of the panicking line>`; robust against
     /// line shifts, specific to the expression that failed.
     pub fn site(&self) -> String {
-        let rel = self.file.trim_start_matches("/repo/").to_string();
+        // path relative to the crate root, wherever the crate was built from
+        let rel = match self.file.rfind("/src/") {
+            Some(p) => self.file[p + 1..].to_string(),
+            None => self.file.trim_start_matches("/repo/").to_string(),
+        };
         let text = source_line(&self.file, self.line).unwrap_or_else(|| format!("line{}", self.line));
         let text: String = text.split_whitespace().collect::<Vec<_>>().join("_");
         format!("{}:{}", rel, text)
@@ -412,6 +425,32 @@ fn viol_from(v: &Value) -> Violation {
     }
 }
 
+fn gcd(a: u64, b: u64) -> u64 {
+    if b == 0 {
+        a
+    } else {
+        gcd(b, a % b)
+    }
+}
+
+/// Multiplier coprime with `len`: iteration position k maps to case (k * m) % len,
+/// a bijection that decorrelates worker number from the dimensions of the index.
+fn stride(len: u64) -> u64 {
+    if len < 3 {
+        return 1;
+    }
+    for m in [1_000_003u64, 1_000_033, 1_000_037, 1_000_039, 1_000_081, 1_000_099, 7919, 104_729] {
+        if gcd(m % len, len) == 1 && m % len != 0 {
+            return m;
+        }
+    }
+    1
+}
+
+fn case_of(k: u64, len: u64, m: u64) -> u64 {
+    ((k as u128 * m as u128) % len as u128) as u64
+}
+
 fn run_case_twice(ctx: &mut Ctx, sub: &Sub, i: u64) {
     let before = ctx.violations.len();
     let seen_before: Vec<String> = ctx.outcomes.keys().filter(|k| k.starts_with("violation:")).cloned().collect();
@@ -437,18 +476,18 @@ fn run_case_twice(ctx: &mut Ctx, sub: &Sub, i: u64) {
     let _ = seen_before;
 }
 
-fn counters_json(ctx: &Ctx, sub_evals: &BTreeMap<String, (u64, u64)>) -> Value {
+fn counters_json(ctx: &Ctx, sub_evals: &BTreeMap<String, (u64, u64, u64)>) -> Value {
     json!({"t":"done","evals":ctx.evals,"nontrivial":ctx.nontrivial,"states":ctx.states,
            "transitions":ctx.transitions,"traces":ctx.traces,"outcomes":ctx.outcomes,
            "samples":ctx.samples,"machinery":ctx.machinery,
-           "sub_evals": sub_evals.iter().map(|(k,v)| (k.clone(), json!([v.0, v.1]))).collect::<serde_json::Map<_,_>>()})
+           "sub_evals": sub_evals.iter().map(|(k,v)| (k.clone(), json!([v.0, v.1, v.2]))).collect::<serde_json::Map<_,_>>()})
 }
 
 fn worker_main(def: &CheckDef, prop: &str, tier: Tier, flavour: &str, is_default: bool, w: u64, nw: u64, resume: Option<(u64, u64)>, slot: &str) -> i32 {
     let mut ctx = Ctx::new(prop, tier, flavour);
     ctx.slot = std::fs::OpenOptions::new().write(true).create(true).truncate(false).open(slot).ok();
     let out = std::io::stdout();
-    let mut sub_evals: BTreeMap<String, (u64, u64)> = BTreeMap::new();
+    let mut sub_evals: BTreeMap<String, (u64, u64, u64)> = BTreeMap::new();
     for (si, sub) in def.subs.iter().enumerate() {
         let si = si as u64;
         let runs_here = if sub.flavours.is_empty() { is_default } else { sub.flavours.contains(&flavour) };
@@ -467,13 +506,22 @@ fn worker_main(def: &CheckDef, prop: &str, tier: Tier, flavour: &str, is_default
         ctx.sub = sub.name.clone();
         ctx.sub_idx = si;
         let e0 = ctx.evals;
+        let t_sub = Instant::now();
         let before_s = ctx.samples.len();
         ctx.sample_cap = before_s + if w == 0 { 2 } else { 0 };
         let mut i = start;
         let mut n = 0u64;
+        let m = stride(sub.len);
+        let mut slowest = (0u64, 0u64);
         while i < sub.len {
             let vb = ctx.violations.len();
-            run_case_twice(&mut ctx, sub, i);
+            ctx.pos = i;
+            let tc = Instant::now();
+            run_case_twice(&mut ctx, sub, case_of(i, sub.len, m));
+            let ms = tc.elapsed().as_millis() as u64;
+            if ms > slowest.1 {
+                slowest = (case_of(i, sub.len, m), ms);
+            }
             for v in &ctx.violations[vb..] {
                 let mut o = out.lock();
                 let _ = writeln!(o, "{}", viol_json(v));
@@ -482,7 +530,16 @@ fn worker_main(def: &CheckDef, prop: &str, tier: Tier, flavour: &str, is_default
             n += 1;
             i += nw;
         }
-        sub_evals.insert(sub.name.clone(), (n, ctx.evals - e0));
+        sub_evals.insert(sub.name.clone(), (n, ctx.evals - e0, t_sub.elapsed().as_millis() as u64));
+        if slowest.1 >= 250 {
+            ctx.outcome_n(&format!("slow-case:{}[{}]", sub.name, slowest.0), slowest.1);
+        }
+        // cumulative snapshot, so that completed subs survive a later crash of this worker
+        let mut snap = counters_json(&ctx, &sub_evals);
+        snap["t"] = json!("snap");
+        let mut o = out.lock();
+        let _ = writeln!(o, "{}", snap);
+        let _ = o.flush();
     }
     let mut o = out.lock();
     let _ = writeln!(o, "{}", counters_json(&ctx, &sub_evals));
@@ -491,6 +548,7 @@ fn worker_main(def: &CheckDef, prop: &str, tier: Tier, flavour: &str, is_default
 }
 
 struct Child {
+    resume: Option<(u64, u64)>,
     w: u64,
     is_default: bool,
     flavour: String,
@@ -518,7 +576,7 @@ fn spawn_worker(bin: &str, prop: &str, tier: Tier, flavour: &str, is_default: bo
         let _ = so.read_to_string(&mut s);
         s
     });
-    Child { w, is_default, flavour: flavour.to_string(), bin: bin.to_string(), proc, reader: Some(reader), slot_path, last_slot: [0xff; 24], last_change: Instant::now() }
+    Child { resume, w, is_default, flavour: flavour.to_string(), bin: bin.to_string(), proc, reader: Some(reader), slot_path, last_slot: [0xff; 24], last_change: Instant::now() }
 }
 
 struct Totals {
@@ -531,17 +589,27 @@ struct Totals {
     samples: Vec<Value>,
     machinery: Vec<String>,
     violations: Vec<Violation>,
-    sub_cases: BTreeMap<String, (u64, u64)>,
+    sub_cases: BTreeMap<String, (u64, u64, u64)>,
 }
 
 fn absorb(tot: &mut Totals, text: &str) -> bool {
     let mut done = false;
+    let mut last: Option<Value> = None;
     for l in text.lines() {
         let Ok(v) = serde_json::from_str::<Value>(l) else { continue };
         match v["t"].as_str() {
             Some("viol") => tot.violations.push(viol_from(&v)),
+            Some("snap") => last = Some(v),
             Some("done") => {
                 done = true;
+                last = Some(v);
+            }
+            _ => {}
+        }
+    }
+    if let Some(v) = last {
+        match v["t"].as_str() {
+            Some("done") | Some("snap") => {
                 tot.evals += v["evals"].as_u64().unwrap_or(0);
                 tot.nontrivial += v["nontrivial"].as_u64().unwrap_or(0);
                 tot.states += v["states"].as_u64().unwrap_or(0);
@@ -560,9 +628,10 @@ fn absorb(tot: &mut Totals, text: &str) -> bool {
                 }
                 if let Some(o) = v["sub_evals"].as_object() {
                     for (k, c) in o {
-                        let e = tot.sub_cases.entry(k.clone()).or_insert((0, 0));
+                        let e = tot.sub_cases.entry(k.clone()).or_insert((0, 0, 0));
                         e.0 += c[0].as_u64().unwrap_or(0);
                         e.1 += c[1].as_u64().unwrap_or(0);
+                        e.2 = e.2.max(c[2].as_u64().unwrap_or(0));
                     }
                 }
             }
@@ -696,12 +765,17 @@ fn parent_main(def: &CheckDef, prop: &str, tier: Tier, bins: &[(String, String)]
                             continue;
                         }
                         // Crash or hang: attribute to the in-flight case.
-                        let idx = u64::from_le_bytes(slot[8..16].try_into().unwrap());
+                        let pos = u64::from_le_bytes(slot[8..16].try_into().unwrap());
                         if si == u64::MAX || si as usize >= def.subs.len() {
                             tot.machinery.push(format!("worker {} ({}) died before its first case: {:?}", c.w, c.flavour, status));
                             continue;
                         }
                         let sub = &def.subs[si as usize];
+                        let idx = case_of(pos, sub.len, stride(sub.len));
+                        // cases of this sub that the dead worker had completed before the in-flight one
+                        let start_pos = c.resume.filter(|r| r.0 == si).map(|r| r.1).unwrap_or(c.w);
+                        let completed = if pos >= start_pos { (pos - start_pos) / nw } else { 0 };
+                        tot.sub_cases.entry(sub.name.clone()).or_insert((0, 0, 0)).0 += completed;
                         let kind = if hung {
                             "hang".to_string()
                         } else {
@@ -711,7 +785,8 @@ fn parent_main(def: &CheckDef, prop: &str, tier: Tier, bins: &[(String, String)]
                             }
                         };
                         tot.violations.push(Violation {
-                            entry: sub.name.clone(),
+                            // identity of a crash: the sub-space without its flavour suffix
+                            entry: sub.name.split('@').next().unwrap_or(&sub.name).to_string(),
                             site: "process".into(),
                             kind: kind.clone(),
                             detail: format!("worker process ended ({}) while executing case {} of sub {} (flavour {}); replay re-executes the case in a child process", kind, idx, sub.name, c.flavour),
@@ -726,7 +801,7 @@ fn parent_main(def: &CheckDef, prop: &str, tier: Tier, bins: &[(String, String)]
                             tot.machinery.push("more than 200 worker crashes; giving up on respawn".into());
                             continue;
                         }
-                        next.push(spawn_worker(&c.bin, prop, tier, &c.flavour, c.is_default, c.w, nw, Some((si, idx + nw)), &slot_dir));
+                        next.push(spawn_worker(&c.bin, prop, tier, &c.flavour, c.is_default, c.w, nw, Some((si, pos + nw)), &slot_dir));
                     }
                 }
             }
@@ -739,12 +814,12 @@ fn parent_main(def: &CheckDef, prop: &str, tier: Tier, bins: &[(String, String)]
     let mut bounds = serde_json::Map::new();
     for sub in &def.subs {
         let nfl = if sub.flavours.is_empty() { 1 } else { sub.flavours.iter().filter(|f| flavours_used.iter().any(|u| u == *f)).count() as u64 };
-        let (cases, evals) = tot.sub_cases.get(&sub.name).cloned().unwrap_or((0, 0));
+        let (cases, evals, ms) = tot.sub_cases.get(&sub.name).cloned().unwrap_or((0, 0, 0));
         let crashed_here = tot.violations.iter().filter(|v| v.site == "process" && v.sub == sub.name).count() as u64;
         if cases + crashed_here != sub.len * nfl {
             exhaustive = false;
         }
-        bounds.insert(sub.name.clone(), json!({"cases": sub.len, "flavours": if sub.flavours.is_empty() { vec![default_flavour.clone()] } else { sub.flavours.iter().map(|s| s.to_string()).collect() }, "executed": cases, "evaluations": evals, "bound": sub.bounds}));
+        bounds.insert(sub.name.clone(), json!({"cases": sub.len, "flavours": if sub.flavours.is_empty() { vec![default_flavour.clone()] } else { sub.flavours.iter().map(|s| s.to_string()).collect() }, "executed": cases, "evaluations": evals, "slowest_worker_ms": ms, "bound": sub.bounds}));
     }
     if !exhaustive {
         tot.machinery.push("not every case of every sub was executed (coverage accounting mismatch)".into());
@@ -775,7 +850,9 @@ fn parent_main(def: &CheckDef, prop: &str, tier: Tier, bins: &[(String, String)]
         let k = known.iter().find(|k| k.prop == prop && k.entry == v.entry && k.site == v.site && k.kind == v.kind);
         if let Some(k) = k {
             known_v += 1;
-            println!("KNOWN-FINDING: property={} {}", prop, &k.line["finding:".len()..].trim());
+            let rest = k.line["finding:".len()..].trim();
+            let rest = rest.strip_prefix(&format!("property={}", prop)).unwrap_or(rest).trim();
+            println!("KNOWN-FINDING: property={} {}", prop, rest);
             continue;
         }
         new_v += 1;
